@@ -19,6 +19,31 @@ ASSUMPTIONS = ["Rust's `{:e}` float formatting is a parameter of the model (re-i
                "text strings containing the literal ' !!! decoding error: ' are not generated"]
 
 
+def prepare(seed, tier):
+    """builds the repository's own `cbor-display` bin target (into a target dir of ours) and tells the harness where it is."""
+    import os, subprocess
+    from verifkit.runner import HARNESS, ENV, REPO_OVERRIDE, target_dir, Lock, log
+    repo = REPO_OVERRIDE or "/repo"
+    tdir = target_dir(os.path.join(HARNESS, "target-cli"))
+    with Lock("cargo-cli.lock"):
+        p = subprocess.run(["cargo", "build", "--release", "--offline", "--manifest-path", os.path.join(repo, "minicbor", "Cargo.toml"), "--bin", "cbor-display",
+                            "--features", "std,half", "--target-dir", tdir], env=ENV, stdout=subprocess.PIPE, stderr=subprocess.STDOUT, text=True)
+    if p.returncode != 0:
+        log(p.stdout[-3000:])
+        raise SystemExit("cbor-display does not build")
+    ENV["VERIF_CLI_BIN"] = os.path.join(tdir, "release", "cbor-display")
+
+
+def judge_cli(op, impl, model, spec):
+    parts = impl.split(" | ")
+    if len(parts) != 3 or not (parts[0] == parts[1] == parts[2]):
+        return "violation"                  # the front end shows something else than minicbor::display of the bytes it was given
+    ib, mp = disp.canon_impl(parts[2][:-2]), disp.model_pieces(model)
+    if ib is None:
+        return "violation"
+    return "ok" if mp is not None and disp.match(mp, ib) else "corr"
+
+
 def judge_total(op, impl, model, spec):
     w = op.split(" ")
     n = 0 if w[1] == "-" else len(w[1]) // 2
@@ -172,7 +197,21 @@ def streams(rng, tier):
     s5 = Stream("many-items", "hcore", mops, judge=judge_tree,
                 rule="display of arrays of 100..1000 tags / empty containers / chunked strings / tag nests == the notation rendered from the tree")
     s5.shrinkable = False
-    return [s1, s2, s3, s4, s5]
+    # the command line front end: whatever bytes it is given, on stdin or as a file, it shows minicbor::display of exactly those bytes
+    cl = ["cli -", "cli 6161", "cli 3031", "cli 4130", "cli 0a", "cli 20", "cli 30313233", "cli 6130", "cli 626162", "cli 4430313233", "cli 303a", "cli 0d0a",
+          "cli 66616263646566", "cli 39393939", "cli 2d", "cli 2d66", "cli 1a00000000", "cli ff", "cli 9f01ff", "cli d9d9f700"]
+    for _ in range(60 if q else 1500):
+        n = rng.randint(1, 12)
+        cl.append("cli " + bytes(rng.choice(b"0123456789abcdefABCDEF \n\t") for _ in range(n)).hex())       # binary CBOR that happens to look like text / hex
+    for t in trees[:120 if q else 3000]:
+        e = W.enc(t)
+        if len(e) <= 200: cl.append("cli " + e.hex())
+    s6 = Stream("command-line-front-end", "hcore", cl, model_ops=["display " + o[4:] for o in cl], judge=judge_cli,
+                rule="cli <bytes>: the repository's cbor-display binary given the bytes on stdin and as a file prints minicbor::display of exactly those bytes "
+                     "(inputs that look like ASCII text / hex digits included), which is compared with the model's display",
+                nontrivial=lambda op, impl: " | " in impl)
+    s6.shrinkable = False
+    return [s1, s2, s3, s4, s5, s6]
 
 
 def replay_streams(rp):
@@ -180,6 +219,8 @@ def replay_streams(rp):
     if "#D=" in full:
         d = int(full.split("#D=")[1].split(":")[1])
         return [Stream("replay", "hcore", [full], model_ops=[" ".join(full.split(" ")[:2]) if d <= DEEP_MODEL_MAX else "display 00"], judge=judge_deep)]
+    if full.startswith("cli"):
+        return [Stream("replay", "hcore", [full], model_ops=["display " + full[4:]], judge=judge_cli)]
     if full.startswith("displayat"):
         return [Stream("replay", "hcore", [full], model_ops=[at_model_op(full)], judge=judge_at)]
     op = " ".join(full.split(" ")[:2])
